@@ -271,6 +271,16 @@ def correspond(run, child, examples):
         run.count("corr:" + kind)
         got, raw = impl_prepass(child, s)
         run.count("passes=" + got.split("|")[0])
+        # the parse call of the correspondence half is judged against the property text too (panic / no answer in time)
+        if isinstance(raw, dict) and ("timeout" in raw or "panic" in raw or "abort" in raw):
+            probs = judge(s, raw)
+            if probs:
+                run.count("oracle_fail(correspondence half):" + probs[0][0])
+                if run.hist.get("oracle_fail(correspondence half):" + probs[0][0], 0) <= 2:
+                    run.violation("; ".join(m for _, m in probs)[:600],
+                                  {"kind": "parse", "source": s, "mutation": "corr:" + kind, "observed": raw,
+                                   "contradicts": "property text (no panic, bounded time); pre-scan theorems C41_prepass_no_panic (coq/theories/Parse/Props.v)"},
+                                  classes=classify(s, probs))
         # positions for in_original
         a = child.ask({"kind": "locate", "source": s, "positions": []}, TIME_LIMIT)
         big = "ok" in a and a["pre_len"] > 50000          # the at-limit expansion: one model evaluation of it is enough
